@@ -40,7 +40,7 @@ MANIFEST = {
     "note": "trusted: crash model (process death, atomic rename, prefix-persisting writes); local backend only",
     "technique": "deterministic simulation with crash / I/O-fault injection and restart at enumerated fault points; invariant + recovery-liveness oracle over the durable state",
 }
-BUDGET = {"quick": (5000, 60), "thorough": (400000, 1500)}
+BUDGET = {"quick": (5000, 60), "thorough": (1500000, 1500)}
 REQUIRED_PROBES = {
     "quick": ["fault_write", "fault_before_rename", "fault_after_put", "rerun_over_store_with_index", "crash_between_last_transfer_and_rename"],
     "thorough": ["fault_write", "fault_before_rename", "fault_after_rename", "fault_after_put", "fault_before_listdir", "fault_after_listdir",
